@@ -18,7 +18,7 @@ from .. import lib, ops
 
 
 def seed_list(tier):
-    K = ['A', 'M', 'B', 'X', 'Zx', 'S', 'M0']
+    K = ['A', 'M', 'B', 'X', 'Zx', 'S', 'M0', 'Mn', 'Sw']
     seeds = [
         {'kind': 'U', 'file': {'lens': {'t': 2, 'z': 2, 'x': 3}, 'unl': True, 'kinds': K}},
         {'kind': 'U', 'file': {'lens': {'t': 1, 'z': 1, 'x': 1}, 'unl': True, 'kinds': K}},
@@ -45,6 +45,8 @@ def seed_list(tier):
         # masked-type variable without a masked cell that holds NaN and inf; time-independent flags (-635)
         {'kind': 'special', 'which': 'nonfinite'},
         {'kind': 'special', 'which': 'tflag635'},
+        # CF time coordinate whose units are a valid but not canonical spelling
+        {'kind': 'special', 'which': 'cftime'},
         {'kind': 'sample', 'format': 'uamiv', 'path': 'camxfiles/uamiv/test.uamiv'},
         {'kind': 'sample', 'format': 'ffi1001', 'path': 'icarttfiles/test.ffi1001'},
     ]
@@ -112,6 +114,16 @@ class Prop(bfs.BfsProp):
                 w.units = 'm'
                 w[...] = [1., np.nan, 3.]
                 f.title = 'nonfinite'
+            elif s['which'] == 'cftime':
+                f.createDimension('time', 3)
+                f.createDimension('x', 2)
+                tv = f.createVariable('time', 'd', ('time',))
+                tv.units = 'hours since 2000-01-01'
+                tv[...] = [0., 6., 12.]
+                v = f.createVariable('T', 'f', ('time', 'x'))
+                v.units = 'K'
+                v[...] = [[1, 2], [3, 4], [5, 6]]
+                f.setCoords(['time'])
             else:
                 f.createDimension('TSTEP', 2)
                 f.createDimension('VAR', 1)
